@@ -201,8 +201,10 @@ def dbCrateById (db : Db) (c : Id) : Res (Option Id) := do
 def dbCratesByName (db : Db) (n : Name) : List Id := sortIds ((db.crate.filter (·.title == n)).map (·.id))
 /-- `SELECT id FROM Track WHERE path IS NOT NULL ORDER BY id`. -/
 def dbTracks (db : Db) : List Id := sortIds ((db.track.filter (·.hasPath)).map (·.id))
+/-- track::is_valid / database::track_by_id: `SELECT COUNT(*) FROM Track WHERE id = ? AND path IS NOT NULL`
+(after the `fix:` a5d64c8 — the NULL-path placeholder row of the AUTOINCREMENT schemas is not a track). -/
 def trackIsValid (db : Db) (t : Id) : Res Bool :=
-  let n := (db.track.filter (·.id == t)).length
+  let n := (db.track.filter (fun r => r.id == t && r.hasPath)).length
   if n == 1 then .ok true else if n > 1 then .throw exTrackInconsistent else .ok false
 
 /-! ### operations -/
